@@ -459,8 +459,15 @@ Section Proofs.
     rewrite firstn_app_2. simpl. apply app_nil_r.
   Qed.
 
+  (* the canonical-wire hypothesis of round 1 implies the one the repaired code needs *)
+  Lemma canonical_size_canonical : wire_canonical txc hdr H W -> wire_size_canonical txc hdr H W.
+  Proof.
+    intros Hcan bytes h cs rest Hd ptrs Hp consumed _. subst consumed.
+    rewrite (Hcan bytes h cs rest Hd ptrs Hp). apply app_firstn_exact.
+  Qed.
+
   Lemma constructed_good w m :
-    wire_canonical txc hdr H W -> constructed txc hdr H W w m -> good m (w_blk w) /\ b_height (w_blk w) = (-1)%Z.
+    wire_size_canonical txc hdr H W -> constructed txc hdr H W w m -> good m (w_blk w) /\ b_height (w_blk w) = (-1)%Z.
   Proof.
     intros Hcan Hc. destruct Hc as [next m|next bytes w rest Hr|next bytes w Hb|next m bytes Hpre].
     - split; [apply good_fresh; auto|reflexivity].
@@ -468,16 +475,18 @@ Section Proofs.
       inversion Hr; subst. simpl. split; [apply good_fresh; auto|reflexivity].
     - unfold Block.new_block_from_bytes, Block.new_block_from_reader in Hb.
       destruct (deser_block _ _ _ W bytes) as [[[h cs] r]|] eqn:Hd; [|discriminate]. simpl in Hb.
-      pose proof (Hcan bytes h cs r Hd (alloc_msgs txc next cs) (alloc_msgs_vals cs next)) as Hbytes.
+      pose proof (Hcan bytes h cs r Hd (alloc_msgs txc next cs) (alloc_msgs_vals cs next)) as Hbytes. simpl in Hbytes.
       destruct (Nat.leb_spec (length r) (length bytes)) as [Hle|Hgt]; [|discriminate].
-      inversion Hb; subst w. simpl. split; [|reflexivity].
-      apply good_set_ser; [apply good_fresh; auto|]. right.
-      rewrite Hbytes. apply app_firstn_exact.
+      destruct (Nat.eqb_spec (length (firstn (length bytes - length r) bytes))
+                  (length (Block.ser_block txc hdr H W (mk_mblk txc hdr h (alloc_msgs txc next cs))))) as [He|Hne];
+        inversion Hb; subst w; simpl; (split; [|reflexivity]).
+      + apply good_set_ser; [apply good_fresh; auto|]. right. apply Hbytes. exact He.
+      + apply good_fresh; auto.
     - split; [apply good_fresh; assumption|reflexivity].
   Qed.
 
   Theorem wrapper_refines_message :
-    wire_canonical txc hdr H W ->
+    wire_size_canonical txc hdr H W ->
     forall w m, constructed txc hdr H W w m ->
     forall ops, exists ids, run w ops = ref_run ids m (-1)%Z ops.
   Proof.
@@ -531,7 +540,7 @@ Section Proofs.
   Proof. induction txs as [|t r IH]; intros off; simpl; [reflexivity|]. rewrite IH. reflexivity. Qed.
 
   Theorem txloc_delimits :
-    wire_canonical txc hdr H W -> wire_txloc txc hdr H W ->
+    wire_size_canonical txc hdr H W -> wire_txloc txc hdr H W ->
     forall w m, constructed txc hdr H W w m ->
     forall ops, exists locs,
       last (run w (ops ++ [OpTxLoc; OpBytes])) (OUnit H) = OBytesV H (ser_block m) /\
@@ -593,8 +602,36 @@ Section Proofs.
     rewrite (erase_ref ids ids' m m' h o Hh Hv), IH. reflexivity.
   Qed.
 
+  Lemma ser_block_vals (m m' : msg_block) :
+    mb_hdr m = mb_hdr m' -> map mt_val (mb_txs m) = map mt_val (mb_txs m') -> ser_block m = ser_block m'.
+  Proof.
+    intros Hh Hv.
+    assert (length (mb_txs m) = length (mb_txs m')) as Hlen.
+    { rewrite <- (map_length mt_val (mb_txs m)), Hv, map_length. reflexivity. }
+    unfold Block.ser_block. rewrite Hh, Hlen. f_equal. f_equal. f_equal.
+    rewrite <- (map_map mt_val (ser_tx _ _ _ W)), Hv, map_map. reflexivity.
+  Qed.
+
+  (* NewBlockFromBytes on a serialisation that wire reads back: the parsed message has the same contents,
+     hence the same serialise size, and the bytes are kept *)
+  Lemma from_bytes_of_ser m next :
+    wire_roundtrip txc hdr H W ->
+    let m' := mk_mblk txc hdr (mb_hdr m) (alloc_msgs txc next (map mt_val (mb_txs m))) in
+    new_block_from_bytes _ _ _ W next (ser_block m) =
+      Ok (mk_world _ _ _ (next + N.of_nat (length (map mt_val (mb_txs m))))
+            (set_ser _ _ _ (fresh_block _ _ _ m' []) (ser_block m))).
+  Proof.
+    intros Hrt m'.
+    assert (ser_block m' = ser_block m) as Hs.
+    { apply ser_block_vals; [reflexivity|]. unfold m'. simpl. apply alloc_msgs_vals. }
+    pose proof (Hrt m []) as Hd. rewrite app_nil_r in Hd.
+    unfold Block.new_block_from_bytes, Block.new_block_from_reader. rewrite Hd.
+    cbn [rbind fst snd Block.fresh_block Block.b_msg Block.w_blk Block.w_next length Nat.leb].
+    fold m'. rewrite Nat.sub_0_r, firstn_all, Hs, Nat.eqb_refl. reflexivity.
+  Qed.
+
   Theorem reparse_equiv :
-    wire_canonical txc hdr H W -> wire_roundtrip txc hdr H W ->
+    wire_size_canonical txc hdr H W -> wire_roundtrip txc hdr H W ->
     forall w m, constructed txc hdr H W w m ->
     forall next, exists w2,
       new_block_from_bytes _ _ _ W next (ser_block m) = Ok w2 /\
@@ -604,20 +641,18 @@ Section Proofs.
       forall ops, map erase (run w2 ops) = map erase (run w ops).
   Proof.
     intros Hcan Hrt w m Hc next.
-    pose proof (Hrt m []) as Hd. rewrite app_nil_r in Hd.
-    unfold Block.new_block_from_bytes, Block.new_block_from_reader. rewrite Hd. simpl.
-    eexists. split; [reflexivity|]. simpl. rewrite Nat.sub_0_r, firstn_all, alloc_msgs_vals.
+    pose proof (from_bytes_of_ser m next Hrt) as Hnb. cbv zeta in Hnb.
+    eexists. split; [exact Hnb|]. simpl. rewrite alloc_msgs_vals.
     repeat split; try reflexivity.
     intros ops.
-    set (w2 := mk_world _ _ _ _ _).
+    match goal with |- context [run ?x ops] => set (w2 := x) end.
     assert (constructed txc hdr H W w2 (b_msg (w_blk w2))) as Hc2.
-    { apply (c_bytes _ _ _ W next (ser_block m)).
-      unfold Block.new_block_from_bytes, Block.new_block_from_reader. rewrite Hd. simpl.
-      rewrite Nat.sub_0_r, firstn_all. reflexivity. }
+    { apply (c_bytes _ _ _ W next (ser_block m)). exact Hnb. }
     destruct (wrapper_refines_message Hcan w2 _ Hc2 ops) as [ids2 ->].
     destruct (wrapper_refines_message Hcan w m Hc ops) as [ids ->].
     apply erase_ref_run; simpl; [reflexivity| apply alloc_msgs_vals].
   Qed.
+
 
   (* ---------- the constructor that trusts its caller: the precondition is necessary ---------- *)
   Theorem block_and_bytes_trusts_caller next m bytes :
